@@ -558,7 +558,7 @@ func main() {
 	}
 	depth, nrand, maxLen := 2, 250, 24
 	if cfg.Thorough() {
-		depth, nrand, maxLen = 4, 3000, 60
+		depth, nrand, maxLen = 4, 2000, 40
 	}
 	ex := explore(depth, alphabet(2, 2), seedPrefixes)
 	vh.Emit(cfg, "exhaustive", header, footer, ex, map[string]interface{}{"exhaustive": true,
